@@ -251,7 +251,7 @@ func (w *world) verify() {
 }
 
 type op struct {
-	kind string // applyA applyB origin return when cancel reset
+	kind string // applyA applyB origin return when cancel reset badapply
 	b, t int
 }
 
@@ -327,6 +327,18 @@ func (w *world) apply(o op) {
 			} else {
 				w.cur[o.t], w.amb[o.t] = o.b, false
 			}
+		case "badapply":
+			// an Apply whose callback cannot fit the target is rejected; whatever was in effect stays in effect and
+			// stays removable (the model does not change)
+			var rej interface{}
+			func() {
+				defer func() { rej = recover() }()
+				w.lookup(o.b, o.t).Apply(func(a, b, c, d string) (string, string) { return a, b })
+			}()
+			if rej == nil {
+				w.amb[o.t] = true // accepted: what the target does now is C13's business
+			}
+			w.rep.Stat("rejected_applies", 1)
 		case "cancel":
 			w.lookup(o.b, o.t).Cancel()
 			w.release(o.b, o.t)
@@ -436,7 +448,7 @@ func TestC02(t *testing.T) {
 		}
 	}
 	rep.Stat("max:targets_sharing_a_page_with_another_target", int64(share))
-	kinds := []string{"applyA", "applyB", "origin", "return", "when", "cancel", "reset", "applyA", "return", "when"}
+	kinds := []string{"applyA", "applyB", "origin", "return", "when", "cancel", "reset", "applyA", "return", "when", "badapply"}
 	for h := 0; h < nh; h++ {
 		nb := 1 + rng.Intn(3)
 		w := newWorld(rep, img, ts, ns, nb)
